@@ -367,6 +367,13 @@ class ProcSim:
         part.inflight = 0
         for q in self.queues:
             q.stalled = [it for it in q.stalled if it[0] is not part]
+            if q.waiters and q.waiters[0] is part and part.state == "blocked":
+                q.poisoned = True
+                self.stats["queue_poisoned"] += 1
+                self.log.add(self.steps, self.now, part.name, "killed_holding_reader_lock",
+                             q.name)
+            if part in q.waiters:
+                q.waiters.remove(part)
         self._mark_dead(part)
         if part is me:
             raise SimKilled()
@@ -439,6 +446,10 @@ class SimQueue:
         self.fifo = collections.deque()
         self.pipe_bytes = 0
         self.stalled = []  # items whose feeder is blocked on the full pipe, in order
+        # multiprocessing.Queue.get() holds the queue's reader lock while it waits for
+        # data.  A process terminated in that state never releases it: every later get()
+        # on the queue blocks for ever (the documented hazard of terminate() with queues)
+        self.poisoned = False
         self.waiters = []
         self.last_deliver = {}
         sim.queues.append(self)
@@ -530,6 +541,16 @@ class SimQueue:
         sim._check_alive(me)
         first = True
         while True:
+            if self.poisoned:
+                if not block:
+                    sim.sync(me, "get_lock_held_by_dead", self.name)
+                    raise _queue.Empty
+                sim.log.add(sim.steps, sim.now, me.name, "wait_reader_lock", self.name)
+                sim.block(me, None if timeout is None else max(0, timeout) * 1e6)
+                if me.timed_out:
+                    sim.sync(me, "get_timeout", self.name)
+                    raise _queue.Empty
+                continue
             if self.fifo:
                 producer, data, idx, _ = self.fifo.popleft()
                 self.pipe_bytes -= len(data)
